@@ -422,10 +422,38 @@ class Gen:
             w = [3, 3, 3]
         return r.choices(['app', 'pop', 'set'], w)[0]
 
+    def foreign_same(self, et, x):
+        """(type, value): a view type other than et that is NOT assignable to et, holding the same content
+        as x (so that it merkleizes like x whenever the chunk counts agree), or None"""
+        r = self.rng
+        if is_basic(et) and et != 'bool':
+            n = int(x)
+            ws = [w for w in ('u8', 'u16', 'u32', 'u64', 'u128', 'u256') if w != et and n < (1 << (8 * UINT_W[w]))]
+            return (r.choice(ws), x) if ws else None
+        k = kind(et)
+        if k == 'Bv':
+            if et[1] > 1 and x.endswith('00') and r.random() < 0.7:
+                return ['Bv', et[1] - 1], x[:-2]
+            return ['Bv', et[1] + 1], x + '00'
+        if k == 'vec' and is_basic(et[1]):
+            if et[2] > 1 and r.random() < 0.3:
+                return ['vec', et[1], et[2] - 1], x[:-1]
+            return ['vec', et[1], et[2] + 1], x + ['0']
+        if k == 'bv':
+            return ['bv', et[1] + 1], x + '0'
+        return None
+
     def invalid_op(self, t, cur):
         """an operation that violates a constraint of type t in state cur (or None)"""
         r = self.rng
         k = kind(t)
+        if k in ('list', 'vec', 'cont') and len(cur) > 1 and r.random() < 0.25:
+            # a view of a non-assignable other type with the same content as what is stored there now
+            i = r.randrange(len(cur) - 1)
+            et = t[1] if k != 'cont' else t[1 + i]
+            fs = self.foreign_same(et, cur[1 + i])
+            if fs is not None:
+                return ['setf', i, fs[0], fs[1]]
         if k == 'list':
             ln = len(cur) - 1
             c = []
@@ -716,6 +744,10 @@ def _apply_val(t, v, op):
         return v[:-1]
     if o == 'chg':
         return ['u', op[1], op[2]]
+    if o == 'sets':
+        i = op[1]
+        vals = op[2][1:]
+        return v[:1 + i] + vals + v[1 + i + len(vals):]
     raise ValueError(o)
 
 
@@ -778,6 +810,12 @@ class StoreGen:
         r = g.rng
         t, v = view['t'], view['v']
         k = kind(t)
+        if k in ('list', 'vec') and len(v) - 1 >= 2 and r.random() < 0.15:
+            # slice assignment (often starting in the middle of a packed chunk)
+            ln = len(v) - 1
+            i = r.randrange(ln)
+            kk = r.randint(1, min(4, ln - i))
+            return ['sets', i, ['s'] + [g.val(t[1], 4) for _ in range(kk)]]
         if k == 'list':
             ln = len(v) - 1
             choices = []
@@ -834,7 +872,30 @@ class StoreGen:
                 self.views[i]['kids'] = True
                 self.views.append(dict(t=ct, v=cv, hook=(i, key), kids=False))
                 kt = kind(self.views[i]['t'])
-                ops.append(['childs' if kt in ('vec', 'list') and r.random() < 0.35 else 'child', i, key])
+                ops.append(r.choice(['childs', 'childi']) if kt in ('vec', 'list') and r.random() < 0.5 else 'child')
+                ops[-1] = [ops[-1], i, key]
+            elif c < 0.30 and len(self.views) >= 2:
+                # assign a held child view as the value of another position (a copy of the value: the
+                # view stays attached to where it was obtained from)
+                ci = r.randrange(1, len(self.views))
+                cv = self.views[ci]
+                cands = []
+                for pi, pv in enumerate(self.views):
+                    if pi == ci:
+                        continue
+                    pt = pv['t']
+                    if kind(pt) in ('vec', 'list') and not is_basic(pt[1]) and show(pt[1]) == show(cv['t']):
+                        cands += [(pi, j) for j in range(len(pv['v']) - 1)]
+                    elif kind(pt) == 'cont':
+                        cands += [(pi, j) for j, f in enumerate(pt[1:]) if show(f) == show(cv['t'])]
+                # not into an ancestor position that contains the view itself (still legal, but the
+                # generator's value tracking keeps it simple)
+                if cands and cv['hook'] is not None:
+                    pi, j = r.choice(cands)
+                    pv = self.views[pi]
+                    pv['v'] = pv['v'][:1 + j] + [cv['v']] + pv['v'][2 + j:]
+                    self.propagate(pi)
+                    ops.append(['assign', pi, j, ci, cv['v']])
             elif c < 0.33 and len(self.views) < 9:
                 i = r.randrange(len(self.views))
                 vw = self.views[i]
